@@ -133,6 +133,12 @@ static struct module *module_load(const char *name)
         return mod;
     }
 
+    /* dlopen("") would hand back the main program, constructors and all. */
+    if (name[0] == '\0') {
+        log_message(log_core, LOG_FATAL, "A module name must not be empty.");
+        return NULL;
+    }
+
     prior = loading_module;
     loading_module = mod = module_get(name);
     if (!loading_module) {
